@@ -506,3 +506,50 @@ def evidence_family(n, seed):
         seen.add(c)
         out.append(p)
     return out
+
+
+def mutual_family(n, seed):
+    """Two mutually recursive unary predicates r/1 and g/1 over the constants, linked by an edge relation, with base clauses
+    in different positions and entry points that call either side first (mutual recursion entered from both sides)."""
+    rng = random.Random(seed * 9109 + 7)
+    out, seen, tries = [], set(), 0
+    while len(out) < n and tries < 60 * n + 100:
+        tries += 1
+        consts = ["c1", "c2", "c3"]
+        p = progs.empty_program(consts)
+        p["facts"].append({"p": [rng.randint(2, 8), 10], "atom": atom("b")})
+        p["facts"].append({"p": [rng.randint(2, 8), 10], "atom": atom("c")})
+        pairs = [(a, b) for a in consts for b in consts if a != b]
+        rng.shuffle(pairs)
+        for a, b in pairs[:rng.randint(2, 4)]:
+            if rng.random() < 0.5:
+                p["facts"].append({"p": [rng.randint(3, 9), 10], "atom": atom("e", a, b)})
+            else:
+                p["rules"].append({"head": atom("e", a, b), "body": []})
+        rec_r = {"head": atom("r", "Y"), "body": [lit(atom("g", "X")), lit(atom("e", "X", "Y"))]}
+        if rng.random() < 0.4:
+            rec_r["body"].reverse()
+        rec_g = {"head": atom("g", "X"), "body": [lit(atom("r", "X"))]}
+        if rng.random() < 0.3:
+            rec_g = {"head": atom("g", "Y"), "body": [lit(atom("r", "X")), lit(atom("e", "X", "Y"))]}
+        base_r = {"head": atom("r", rng.choice(consts)), "body": [lit(atom("b"))]}
+        base_g = {"head": atom("g", rng.choice(consts)), "body": [lit(atom("c"))]}
+        entry = [{"head": atom("t"), "body": [lit(atom("r", "X"))]}, {"head": atom("t"), "body": [lit(atom("g", "X"))]},
+                 {"head": atom("q"), "body": [lit(atom("r", "X")), lit(atom("g", "X"))]},
+                 {"head": atom("q"), "body": [lit(atom("g", "X")), lit(atom("e", "X", "Y")), lit(atom("r", "Y"))]}]
+        rng.shuffle(entry)
+        rules = [rec_r, rec_g, base_r] + ([base_g] if rng.random() < 0.6 else []) + entry[:rng.randint(1, 3)]
+        rng.shuffle(rules)
+        p["rules"] += rules
+        qs = [atom(h) for h in sorted({r["head"]["f"] for r in rules if r["head"]["f"] in ("t", "q")})]
+        qs += rng.sample([atom("g", "W"), atom("r", "W"), atom("r", "c2"), atom("g", "c3")], rng.randint(0, 2))
+        rng.shuffle(qs)
+        p["queries"] = qs
+        if not qs:
+            continue
+        c = progs.canon(p)
+        if c in seen:
+            continue
+        seen.add(c)
+        out.append(p)
+    return out
